@@ -1,0 +1,40 @@
+//go:build verif
+
+package conn
+
+import "encoding/binary"
+
+// Thin accessors for the verification harness (/verif, property C16). Add-only; with the build
+// tag off this file does not exist for the compiler.
+
+// VerifNonces returns the send and receive nonce counters.
+func (sc *SecretConnection) VerifNonces() (send, recv uint64) {
+	sc.sendMtx.Lock()
+	send = binary.LittleEndian.Uint64(sc.sendNonce[4:])
+	sc.sendMtx.Unlock()
+	sc.recvMtx.Lock()
+	recv = binary.LittleEndian.Uint64(sc.recvNonce[4:])
+	sc.recvMtx.Unlock()
+	return send, recv
+}
+
+// VerifSetSendNonce sets the send nonce counter (to reach the overflow guard of incrNonce).
+func (sc *SecretConnection) VerifSetSendNonce(v uint64) {
+	sc.sendMtx.Lock()
+	binary.LittleEndian.PutUint64(sc.sendNonce[4:], v)
+	sc.sendMtx.Unlock()
+}
+
+// VerifSetRecvNonce sets the receive nonce counter.
+func (sc *SecretConnection) VerifSetRecvNonce(v uint64) {
+	sc.recvMtx.Lock()
+	binary.LittleEndian.PutUint64(sc.recvNonce[4:], v)
+	sc.recvMtx.Unlock()
+}
+
+// VerifRecvBufferLen returns len(recvBuffer).
+func (sc *SecretConnection) VerifRecvBufferLen() int {
+	sc.recvMtx.Lock()
+	defer sc.recvMtx.Unlock()
+	return len(sc.recvBuffer)
+}
